@@ -497,7 +497,18 @@ def axum_rules(crate, res):
                 st_, body_ = t[3][0][2]
                 ok = st_[0] == "const" and (st_[2] == 400 or "BAD_REQUEST" in str(st_[2])) and body_[0] == "call" and call_name(v, body_) == "std::string::ToString::to_string" and strip_refs(body_[3][0]) == ("param", 1)
         if not ok or any(v.blocks[x]["term"]["k"] == "switch" for x in v.reach):
-            fs.append(fnd("C20.JSONERR", v, "a JsonError is not answered with (400 BAD_REQUEST, its message)"))
+            f_ = fnd("C20.JSONERR", v, "a JsonError is not answered with (400 BAD_REQUEST, its message)")
+            # built another way (body's response first, then `*status_mut() = BAD_REQUEST`): the message is still taken from
+            # the error and the only status mentioned is 400 - how they are put together was not read
+            import json as _json
+            blob = _json.dumps([v.blocks[x] for x in sorted(v.reach)])
+            says_400 = "BAD_REQUEST" in blob or "(400" in blob or " 400" in blob
+            other_status = any(k_ in blob for k_ in ("INTERNAL_SERVER_ERROR", "UNPROCESSABLE_ENTITY", "NOT_FOUND", "StatusCode::OK", "FORBIDDEN", "CONFLICT"))
+            msg_from_self = any(c2.fn is not None and c2.name == "to_string" and strip_refs(canon(v, v.origin(v.blocks[b2]["term"]["args"][0]))) == ("param", 1) for b2, c2 in v.calls())
+            if not ok and says_400 and not other_status and msg_from_self and not any(v.blocks[x]["term"]["k"] == "switch" for x in v.reach):
+                f_.what += ": the response is not the `(status, body)` tuple form; 400 and the error's own message are used, how was not read: not recognised (undecided)"
+                f_.undecided = True
+            fs.append(f_)
     res.add("C20.JSONERR", 1, fs)
 
 
